@@ -19,11 +19,11 @@ RULE = ("exhaustive enumeration. merge_small_dims: every shape of rank 0..6, dim
         "dims 1..2 and rank 1..2 dims 1..6 (thorough: rank 0..5 dims 1..3 and rank 0..4 dims 1..4) x merge limits {off,1,2,3,4,6,8,16,4096} x "
         "block 1..B+1 x types ALL/INPUT/OUTPUT, de-duplicated on (transformed shape, block, type). Tearfree blockify: "
         "every accepted shape over dims {2,3,4,6,8}, rank 1..4 (thorough 1..5), <=1024 elements x block {2,3,4}. "
-        "Reshaper: shapes rank 0..4 dims 1..4 x merge_dims {2,3,4,6,4096} x block {0,2,3,4}. A case is non-trivial "
+        "Frequent-directions statistics (factor R with R R' = Gram on compressed axes): rank 1..2 dims 1..6 and {2,5}^3 x block {3,4,8}. Reshaper: shapes rank 0..4 dims 1..4 x merge_dims {2,3,4,6,4096} x block {0,2,3,4}. A case is non-trivial "
         "when the tensor has >1 element; distinct by (function, shape, parameters)")
 ASSUMPTIONS = ["tensors are float64 aranges (x64 on) so any permutation, loss or duplication of elements is visible and Gram matrices are exact"]
 DECIDING = ["merge_small_dims", "partition_values", "roundtrip_partition", "identity_precondition",
-            "announced_vs_produced", "blockify_values", "reshaper_roundtrip", "stats_gram_exact"]
+            "announced_vs_produced", "blockify_values", "reshaper_roundtrip", "stats_gram_exact", "fd_statistics_checked"]
 MIN_NONTRIVIAL = 200
 TIMEOUT = {"quick": 1200, "thorough": 7200}
 NSHARDS = 16
@@ -179,6 +179,46 @@ def check_preconditioner(shape, limit, block, ptype, rec):
   guarded(rec, "precond", wit, body)
 
 
+def check_fdstats(shape, block, rec):
+  """With frequent directions the statistics of compressed axes are square factors R with R R' = Gram (others stay Gram)."""
+  import jax.numpy as jnp
+  from precondition import distributed_shampoo as ds
+  wit = {"fn": "fdstats", "shape": list(shape), "block": block}
+  n = math.prod(shape)
+  rec.case("f%s|%d" % (shape, block), n > 1, sample=wit if block == 4 and len(shape) == 2 and shape[0] == 5 else None)
+  x = jnp.asarray(np.cos(np.arange(1, n + 1, dtype=np.float64)).reshape(shape))
+
+  def body():
+    pre = ds.Preconditioner(x, block, 4096, False, ds.PreconditionerType.ALL, 1)
+    xt = np.asarray(x)
+    exp = pred_blocks(shape, block)
+    announced = [list(map(int, s_)) for s_ in pre.shapes_for_preconditioners()]
+    stats0 = [jnp.zeros((s_[0], s_[0]), jnp.float64) for s_ in announced]
+    new = pre.updated_statistics_from_grad(stats0, x, w1=0.0, w2=1.0, frequent_directions=True)
+    i = 0
+    for sl in exp:
+      b = xt[sl]
+      for a in range(len(shape)):
+        m = np.moveaxis(b, a, 0).reshape(b.shape[a], -1)
+        gram = m @ m.T
+        got = np.asarray(new[i], np.float64)
+        d = b.shape[a]
+        if got.shape != (d, d):
+          rec.violation("fd-statistic-shape", "FD statistic shape %s for axis size %d" % (got.shape, d), wit)
+          return
+        val = got @ got.T if d > 3 else got      # compression_rank 1: axes with 1 + 2 < d carry factors
+        if announced[i] != [d, 3 if d > 3 else d]:
+          rec.violation("fd-announced-shape", "announced %s for axis size %d with compression rank 1" % (announced[i], d), wit)
+          return
+        if np.max(np.abs(val - gram)) > 1e-9 * max(np.max(np.abs(gram)), 1e-300):
+          rec.violation("fd-statistic-factor", "FD statistic of axis size %d does not reproduce the Gram matrix (R R' != G G')" % d, wit)
+          return
+        rec.count("fd_statistics_checked")
+        i += 1
+
+  guarded(rec, "fdstats", wit, body)
+
+
 def check_blockify(shape, block, rec):
   import jax.numpy as jnp
   from precondition.tearfree import shampoo as ts
@@ -305,6 +345,11 @@ def enumerate_work(B):
         if any(d % block for d in shape if d >= block):
           continue
         work.append(("blockify", (shape, block)))
+  for shape in list(all_shapes(6, 2)) + [sh for sh in itertools.product((2, 5), repeat=3)]:
+    if not shape:
+      continue
+    for block in (3, 4, 8):
+      work.append(("fdstats", (shape, block)))
   for shape in all_shapes(4, 4):
     for md in (2, 3, 4, 6, 4096):
       for block in (0, 2, 3, 4):
@@ -358,6 +403,8 @@ def run(spec, rec):
       check_preconditioner(*args, rec)
     elif kind == "blockify":
       check_blockify(*args, rec)
+    elif kind == "fdstats":
+      check_fdstats(*args, rec)
     else:
       check_reshaper(*args, rec)
   for k, v in contracts.COUNTS.items():
@@ -377,5 +424,7 @@ def replay(witness, rec):
     check_preconditioner(tuple(w["shape"]), w["merge_limit"], w["block"], w["type"], rec)
   elif fn == "_blockify":
     check_blockify(tuple(w["shape"]), w["block"], rec)
+  elif fn == "fdstats":
+    check_fdstats(tuple(w["shape"]), w["block"], rec)
   else:
     check_reshaper(tuple(w["shape"]), w["merge_dims"], w["block"], rec)
